@@ -74,6 +74,8 @@ class OpRunner(object):
         """-> (--trash-dir argument, cwd or None, spelling name).  All spellings designate the same directory for the
         file system; 'linkdotdot' designates ANOTHER, populated, trash directory for whoever collapses '..' lexically"""
         w = self.w
+        if w.td_linked(t) and not spelling and not self.td_spelling:
+            return w.td_arg(t), None, 'vialink'       # one spelling for every command of this world
         p = w.tpath(t)
         opts = ['abs', 'abs', 'abs', 'slash', 'dblslash', 'linkdotdot'] + (['rel', 'dotrel'] if cwd_free else [])
         sp = spelling or self.td_spelling or self.rnd.choice(opts)
